@@ -1122,7 +1122,14 @@ def tree_path_to_fs_path(
     Returns: Filesystem path as bytes (with os.sep, filesystem encoding)
     """
     # Decode from tree encoding
-    path_str = tree_path.decode(tree_encoding)
+    try:
+        path_str = tree_path.decode(tree_encoding)
+    except UnicodeDecodeError:
+        if os.sep != "/":
+            raise
+        # File names are arbitrary bytes on POSIX, in the tree as on disk: a
+        # name that is not valid in the tree encoding is used as it is.
+        return tree_path
 
     # Replace / with OS separator if needed
     if os.sep != "/":
